@@ -204,14 +204,8 @@ func authdDecorate(g *SysGen, o Op) Op {
 	case "Authorize", "Par", "BcAuthorize":
 		if o.Params.AuthDetails == nil && !o.Params.AuthDetailsEmpty {
 			o.Params.AuthDetails, o.Params.AuthDetailsEmpty = a.request(g)
-			if o.Kind == "Par" {
-				// `authorization_details=[]` is not PUSHED in random histories: the empty list survives in a
-				// pointer-sharing store and is dropped (omitempty) by a serialising one, so that the outer
-				// parameter of the redeeming request is merged in or not - the request is refused either way
-				// when the outer list is invalid, but with another error code (suite c18 compares them:
-				// notes/C18-par-empty-authorization-details.json).  The scenario matrix does push `[]`.
-				o.Params.AuthDetailsEmpty = false
-			}
+			// `authorization_details=[]` is pushed too: the empty list used to survive in a pointer-sharing
+			// store and to be dropped (omitempty) by a serialising one (D27, fixed: the session never keeps it).
 		}
 		if o.Kind == "Authorize" && o.Pol.Kind == "PolSuccess" && o.Pol.Details == nil {
 			req := o.Params.AuthDetails
